@@ -548,7 +548,7 @@ func randLight(rng *rand.Rand, kind, depth int, idx *int) lightRef {
 
 func lightSection(r *vlib.Run) {
 	nSamples := r.N(100000, 1000000)
-	r.Section("lights", r.N(800, 2400), vlib.SectionOpts{}, func(c *vlib.Case) {
+	r.Section("lights", r.N(640, 2400), vlib.SectionOpts{}, func(c *vlib.Case) {
 		rng := c.Rng
 		idx := 0
 		kind := c.Index % 4
